@@ -127,9 +127,9 @@ class GenInliner:
             return None
         gb = [copy.deepcopy(s) for s in real_body(m)]
         if gb and not any(_own([x], (ast.Yield, ast.YieldFrom)) for x in _own(gb, (ast.While, ast.For))):
-            if orelse or pre_bound:
+            if orelse:
                 return None
-            return self._expand_unlooped(loop, m, skip, binds, gb)
+            return self._expand_unlooped(loop, m, skip, binds, gb)       # (pre-bound: the arguments are the locals they were bound to)
         if not gb or not isinstance(gb[-1], (ast.While, ast.For)) or gb[-1].orelse:
             return None
         pre, gl = gb[:-1], gb[-1]
@@ -351,7 +351,43 @@ def lower_any_guard(stmts, gi) -> list[ast.stmt]:
     return out
 
 
+def split_chained_loops(stmts):
+    """for x in chain(A, B, ..): BODY   ->   for x in A: BODY;  for x in B: BODY; ..      (no break / else: one loop after the other is
+    what chain does; A, B are evaluated when chain is called -- generator calls only bind their arguments then)"""
+    # x = chain(..) read once, as the iterable of the loop that follows: written there
+    stmts = list(stmts)
+    for i in range(len(stmts) - 1):
+        a_, f_ = stmts[i], stmts[i + 1]
+        if isinstance(a_, ast.Assign) and len(a_.targets) == 1 and isinstance(a_.targets[0], ast.Name) and isinstance(a_.value, ast.Call) \
+                and u(a_.value.func) in ("chain", "itertools.chain") and isinstance(f_, ast.For) and isinstance(f_.iter, ast.Name) and f_.iter.id == a_.targets[0].id \
+                and sum(1 for x in stmts for n in ast.walk(x) if isinstance(n, ast.Name) and n.id == f_.iter.id) == 2:
+            f_.iter = a_.value
+            stmts[i] = ast.copy_location(ast.Pass(), a_)
+    stmts = [x for x in stmts if not isinstance(x, ast.Pass)] or stmts
+    out = []
+    for s_ in stmts:
+        for fld in ("body", "orelse", "finalbody"):
+            bb = getattr(s_, fld, None)
+            if isinstance(bb, list) and bb and isinstance(bb[0], ast.stmt) and not isinstance(s_, (ast.FunctionDef, ast.AsyncFunctionDef, ast.ClassDef)):
+                setattr(s_, fld, split_chained_loops(bb))
+        if isinstance(s_, ast.Try):
+            for h in s_.handlers:
+                h.body = split_chained_loops(h.body)
+        if isinstance(s_, ast.For) and not s_.orelse and isinstance(s_.iter, ast.Call) and u(s_.iter.func) in ("chain", "itertools.chain") and not s_.iter.keywords \
+                and len(s_.iter.args) >= 2 and not any(isinstance(a, ast.Starred) for a in s_.iter.args) and not _loop_level(s_.body, (ast.Break,)) \
+                and all(isinstance(a, ast.Call) or norm.is_pure(a) for a in s_.iter.args):
+            # the arguments after the first are evaluated before the first loop runs: fine when they are generator calls with pure arguments
+            if all(norm.is_pure(x) for a in s_.iter.args[1:] if isinstance(a, ast.Call) for x in [*a.args, *[k.value for k in a.keywords]]):
+                for a in s_.iter.args:
+                    out.append(ast.fix_missing_locations(ast.copy_location(
+                        ast.For(target=copy.deepcopy(s_.target), iter=a, body=[copy.deepcopy(x) for x in s_.body], orelse=[], type_comment=None), s_)))
+                continue
+        out.append(s_)
+    return out
+
+
 def inline_generator_loops(stmts, lookup):
+    stmts = split_chained_loops(stmts)
     gi = GenInliner(lookup)
     stmts = bind_generator_locals(stmts, gi)
     stmts = lower_any_guard(stmts, gi)
